@@ -255,6 +255,19 @@ def run(ctx):
         kslot = (1700000000000 // (iv * 1000) // n) * n + n + pos
         ms = (kslot - 1) * iv * 1000 + 1 + rng.randrange(0, iv * 1000)
         dc.append({"iv": iv, "history": hist, "members": members, "signer": signer, "ts": ms * 1000000, "rel": False, "mutate": ""})
+    # the node booted with another BP count than the set now in force (dpos.New: Init(bpc.Size()) once; an
+    # election changed the size since): validity must rotate over the CURRENT size.  Every member x every
+    # slot of two rounds, plus an outsider.
+    for gcount, members in ((3, [4, 7]), (5, [2, 9, 6]), (2, [1, 3, 5, 8, 0]), (23, [6, 2, 4]), (3, [5])):
+        n = len(members)
+        for signer in members + [11]:
+            for sl in range(2 * max(n, gcount)):
+                ms = (1700000000000 // 1000 // 60) * 60 * 1000 + sl * 1000 + 1 + rng.randrange(0, 1000)
+                dc.append({"iv": 1, "history": [list(range(gcount))] if gcount <= 12 else [], "members": members, "signer": signer, "ts": ms * 1000000,
+                           "rel": False, "mutate": "", "genesis": gcount})
+    for c in dc:
+        if "genesis" not in c and rng.random() < 0.5:
+            c["genesis"] = rng.choice([1, 2, 3, 5, 7, 23])
     for mfield in FIELDS:
         dc.append({"iv": 1, "members": [0, 1, 2], "signer": 1, "ts": 1700000000001 * 1000000, "rel": False, "mutate": mfield})
     for q in range(-8, 14):
@@ -310,6 +323,16 @@ def run(ctx):
             pred_fail.append(("timestamp two or more slots ahead of the clock accepted", dict(case=c, obs=o)))
         if c["signer"] not in c["members"] and o["valid"]:
             pred_fail.append(("non-member accepted as producer", c))
+        if not c["mutate"]:
+            # the rule itself: valid iff the signer's index in the CURRENT set owns the slot, rotation over the current size
+            mem, ivms = c["members"], c["iv"] * 1000
+            owner = ((o["ts"] // 10 ** 6 + ivms - 1) // ivms) % len(mem)
+            expect = c["signer"] in mem and (len(mem) - 1 - mem[::-1].index(c["signer"])) == owner
+            if o["valid"] != expect:
+                what = ("block by the producer owning its slot in the current set (%d producers, %s at boot) refused by DPoS.IsBlockValid"
+                        if expect else "block by a producer that does not own its slot in the current set (%d producers, %s at boot) accepted "
+                        "by DPoS.IsBlockValid") % (len(mem), c.get("genesis", "same"))
+                pred_fail.append(("C09:slot-owner-refused" if expect else "C09:non-owner-accepted", what, dict(case=c, obs=o)))
     txt = slot_txt + [
            "Definition vok (c : (Z * list Z * Z * Z * Z * Z) * (Z * bool * bool)) : bool :=",
            "  let '((iv, ids, signer, ts, n0, n1), o) := c in",
